@@ -181,7 +181,7 @@ def run_shard(ctx):
         replay = {'job': dict(job, **{'in': 'in.txt', 'out': 'out.bin', 'maps': ['user.map'] if mapfile is not None else []}),
                   'text': data.decode('utf-8', 'surrogateescape'), 'mapfile': mapfile, 'class': cls}
         input_id = item[8] if len(item) > 8 else None
-        v = crash.judge_exec(ctx, 'C04', job, resp, len(data), '%s compile -g %s (%s input)' % (core.TOOLBIN[tool], game, cls), replay, input_id=input_id)
+        v = crash.judge_exec(ctx, 'C04', job, resp, len(data), '%s compile -g %s (%s input)' % (core.TOOLBIN[tool], game, cls), replay, input_id=input_id, memory_clause=False)   # (memory exhaustion is part of C16's statement, not C04's; aborts are still observed)
         ctx.count({'generated': 'generated', 'mutant': 'mutants', 'hostile': 'hostile', 'mapfile': 'mapfile_cases', 'corpus': 'corpus'}[cls])
         if cls == 'generated':
             ctx.count('generated_valid_accepted' if v == 'ok' else 'generated_rejected')
